@@ -162,14 +162,16 @@ func (f *SubscriptionFieldFilter) SkipEvent(ctx *Context, data []byte) (bool, er
 				// Boolean: true -> JSON: "true"
 				// Number: 42 -> JSON: "42"
 				// Null: null -> JSON: "null"
+				// (into a variable of its own: expected is compared against every value template of the list)
+				stringified := expected
 				if expectedDataType == jsonparser.String {
-					expected, err = json.Marshal(string(expected))
+					stringified, err = json.Marshal(string(expected))
 					if err != nil {
 						return true, err
 					}
 				}
 
-				if bytes.Equal(expected, actualRawBytes) {
+				if bytes.Equal(stringified, actualRawBytes) {
 					return false, nil
 				}
 
